@@ -4,7 +4,7 @@
 cd /verif
 jobs=${1:-4}
 run_one() {
-  name=$1; pid=${name%%-*}; wt=/tmp/seedwt_$name
+  name=$1; pid=${name:0:3}; wt=/tmp/seedwt_$name
   git -C /repo worktree add -q --detach $wt HEAD 2>/dev/null || { echo "$name worktree-failed"; return; }
   if git -C $wt apply /verif/seeded/$name/patch.diff 2>/dev/null; then
     t0=$(date +%s); MJW_REPO=$wt ./vcheck $pid > /tmp/seedrun_$name.log 2>&1; rc=$?; t1=$(date +%s)
